@@ -347,7 +347,22 @@ impl Ctx {
         self.run_cases_seeded(workload, n, false, f);
     }
 
+    /// Runs the cases one after the other on the calling thread (for workloads that spawn their own threads).
+    pub fn run_cases_serial<F>(&self, workload: &str, n: u64, f: F)
+    where
+        F: Fn(&mut Case) + Sync,
+    {
+        self.run_cases_opt(workload, n, true, true, f);
+    }
+
     fn run_cases_seeded<F>(&self, workload: &str, n: u64, seeded: bool, f: F)
+    where
+        F: Fn(&mut Case) + Sync,
+    {
+        self.run_cases_opt(workload, n, seeded, false, f);
+    }
+
+    fn run_cases_opt<F>(&self, workload: &str, n: u64, seeded: bool, serial: bool, f: F)
     where
         F: Fn(&mut Case) + Sync,
     {
@@ -379,7 +394,7 @@ impl Ctx {
         }
 
         let next = AtomicU64::new(0);
-        let threads = self.threads.max(1).min(n.max(1) as usize);
+        let threads = if serial { 1 } else { self.threads.max(1).min(n.max(1) as usize) };
         if threads <= 1 {
             let mut l = Local::default();
             for idx in 0..n {
@@ -486,6 +501,15 @@ impl Ctx {
 
         let rdir = self.out_dir.join("replay");
         let _ = std::fs::create_dir_all(&rdir);
+        if let Ok(rd) = std::fs::read_dir(&rdir) {
+            // stale replays of earlier runs of this property would be confusing
+            let prefix = format!("{}-seed", self.prop);
+            for e in rd.flatten() {
+                if e.file_name().to_string_lossy().starts_with(&prefix) && self.replay.is_none() {
+                    let _ = std::fs::remove_file(e.path());
+                }
+            }
+        }
         for (i, v) in viols.iter().enumerate() {
             let path = rdir.join(format!("{}-seed{}-{}.json", self.prop, self.seed, i));
             let j = Json::obj()
